@@ -633,7 +633,9 @@ package xmpp
 //@ func (*xmpp.Session).resume(s, o) (ok)
 //@   requires s != nil && s.transport != nil
 //@   emit ResumedOK(s) when ok
-//@   ensures [C11.resume.never]   (!old(stanza.smOffered(s.Features)) || old(s.SMState.Id) == "") ==> !ok && count(Write) == old(count(Write)) && count(PacketRead) == old(count(PacketRead)) && smStateKept(s) && s.err == old(s.err)
+//@   ensures [C11.resume.never]   (!old(stanza.smOffered(s.Features)) || old(s.SMState.Id) == "") ==> !ok && count(Write) == old(count(Write)) && count(PacketRead) == old(count(PacketRead)) && s.err == old(s.err)
+//@   ensures [C11.resume.notoffered,C09.resume.notoffered] !old(stanza.smOffered(s.Features)) ==> smStateZero(s)
+//@   ensures [C11.resume.noid] (old(stanza.smOffered(s.Features)) && old(s.SMState.Id) == "") ==> smStateKept(s)
 //@   ensures [C11.resume.once]    count(Write) <= old(count(Write)) + 1 && count(PacketRead) <= old(count(PacketRead)) + 1
 //@   ensures [C11.resume.ok,C09.resume.kept]      ok ==> count(Write) == old(count(Write)) + 1 && newReadIs(stanza.SMResumed) && last(PacketRead).(stanza.SMResumed).PrevId == old(s.SMState.Id) && atlast(Write) < atlast(PacketRead) && smStateKept(s) && s.err == nil
 //@   ensures [C11.resume.stale]   (!ok && count(Write) == old(count(Write)) + 1 && last(Write, 2)) ==> smStateZero(s)
